@@ -113,7 +113,7 @@ impl Property for C05 {
         "proptest histories (<=25 quick / <=45 thorough ops) over 2 ITS-deployed tokens (initial supply 1000 / 0, with / without minter), 2 registered canonical Stellar assets, 4 users, an executable probe, 3 chains: deployments, registrations, outbound transfers (amount 0, -1, 1, small, balance, balance+1, custody, custody+1; data absent / present; gas 0, -1, 1, all, all+1), approved inbound transfers (to users or to the executable with data; amounts up to custody+1), trusted-chain changes, minter mints, transfers of unknown token ids. Oracle: ledger model of every balance, custody per canonical token and supply per deployed token, compared after every step (custody = token balance of the service, never negative; supply = sum of balances over the closed address pool); successful outbound = exactly sender -amount, payer -gas, gas service +gas, one contract_called whose payload equals the harness's own ABI encoding of SendToHub{chain, Transfer{id, XDR(sender), destination, amount, data}}, gas_paid with keccak(payload), matching interchain_transfer_sent; inbound credits exactly the amount with matching interchain_transfer_received; every refused call leaves the ledger snapshot identical. The configuration of known finding C11 (supply>0 with minter) is excluded by construction. non-trivial = history has transfers in both directions on a canonical token, or a failing attempt between two successful transfers; distinct by Debug hash"
     }
     fn cases(&self, tier: Tier) -> u64 {
-        tier.pick(2500, 30000)
+        tier.pick(2500, 40000)
     }
     fn strategy(&self, tier: Tier) -> BoxedStrategy<Case> {
         (prop_oneof![1 => Just(0u8), 2 => Just(1u8), 4 => Just(2u8)], proptest::collection::vec(op(), 1..=tier.pick(25usize, 45usize)))
